@@ -20,7 +20,11 @@ Inductive case_C07 :=
              (outsiders : list bool)                                       (* uninitialised jobs: in cursor? *)
 | CaseGroup (jobs : list job) (regex : list ((str * str) * bool)) (order : list str)
             (flt : json) (single : bool) (keys : list str) (default : option json) (o : gobs)
-            (cursor_ids : option (list str)).   (* what iterating the same cursor yields; None: it raises *)
+            (cursor_ids : option (list str))    (* what iterating the same cursor yields; None: it raises *)
+(* groupby(key) with key None (label = the job id) or a callable: the label function is the caller's code, not
+   signac's; the harness applies it to a fresh handle of every job by itself and hands the table id -> label over *)
+| CaseGroupFn (jobs : list job) (regex : list ((str * str) * bool)) (order : list str)
+              (flt : json) (table : list (str * json)) (o : gobs) (cursor_ids : option (list str)).
 
 Fixpoint tab_lookup {A} (t : list (str * A)) (k : str) : option A :=
   match t with
@@ -139,6 +143,26 @@ Definition groups_eqb (a b : list (json * list str)) : bool :=
   Nat.eqb (length a) (length b) &&
   forallb (fun g => existsb (fun h => py_eq (fst g) (fst h) && set_eqb (snd g) (snd h)) b) a.
 
+(* groupby by key None / by a callable: no pre-filter, every selected job is labelled by the table, then
+   sorted(..., key=label) and itertools.groupby as for keys (the generic theorems on group_adjacent / sort_labeled
+   of props/C07.v are stated for an arbitrary labelled list and cover this case as they stand) *)
+Definition groupby_fn_model regex (jobs : list job) (order : list str) (flt : json) (table : list (str * json)) : gb_result :=
+  match find_job_ids (regex_lookup regex) isclose_dy FUEL jobs flt with
+  | Err e => GbErr e
+  | Ok sel =>
+      let seq := filter (fun i => mem i sel) order in
+      let ls := flat_map (fun i => match tab_lookup table i with Some l => [(l, i)] | None => [] end) seq in
+      if Nat.leb (length ls) 1 || all_pairs_orderable (map fst ls)
+      then GbGroups (group_adjacent (sort_labeled ls) None)
+      else GbUnsortable
+  end.
+
+Fixpoint labels_distinct (l : list json) : bool :=
+  match l with
+  | [] => true
+  | x :: r => negb (existsb (py_eq x) r) && labels_distinct r
+  end.
+
 Definition mismatch_C07 (c : case_C07) : bool :=
   match c with
   | CaseSpell jobs regex floats jsons base variants =>
@@ -150,6 +174,14 @@ Definition mismatch_C07 (c : case_C07) : bool :=
       end
   | CaseGroup jobs regex order flt single keys default o _ =>
       match groupby_model (regex_lookup regex) isclose_dy FUEL jobs order flt single keys default, o with
+      | GbGroups g, GObsGroups g' => negb (groups_eqb g g')
+      | GbUnsortable, GObsGroups _ => false
+      | GbUnsortable, GObsExn e => negb (exn_eqb e ETypeError)
+      | GbErr e, GObsExn e' => negb (exn_eqb e e')
+      | _, _ => true
+      end
+  | CaseGroupFn jobs regex order flt table o _ =>
+      match groupby_fn_model regex jobs order flt table, o with
       | GbGroups g, GObsGroups g' => negb (groups_eqb g g')
       | GbUnsortable, GObsGroups _ => false
       | GbUnsortable, GObsExn e => negb (exn_eqb e ETypeError)
@@ -219,6 +251,28 @@ Definition holds_C07 (c : case_C07) : bool :=
                    | [] => true
                    | x :: r => negb (existsb (py_eq x) r) && distinct r
                    end) (map fst g)
+            end
+      end
+  | CaseGroupFn jobs regex order flt table o cursor_ids =>
+      match cursor_ids with
+      | None => true                                   (* the cursor itself raises: no claim *)
+      | Some ids =>
+          let labs := flat_map (fun i => match tab_lookup table i with Some l => [l] | None => [] end) ids in
+          if negb (labels_orderable labs) then true    (* labels must be sortable: no claim *)
+          else
+            match o with
+            | GObsExn _ => false
+            | GObsGroups g =>
+                (* every selected job in exactly one group *)
+                set_eqb (flat_map snd g) ids && nodup_str (flat_map snd g) &&
+                (* a group's label equals the function's value on each member; no empty group *)
+                forallb (fun grp =>
+                           forallb (fun i => match tab_lookup table i with
+                                             | Some l => py_eq l (fst grp)
+                                             | None => false
+                                             end) (snd grp)
+                           && negb (match snd grp with [] => true | _ => false end)) g &&
+                labels_distinct (map fst g)
             end
       end
   end.
